@@ -1146,7 +1146,7 @@ func checkZeroRowsIsNotEmpty(p *Program, r *Report, rule string, entries []strin
 					if !ok || g2.If == g.If {
 						continue
 					}
-					if sameValue(rel2.X, arg) || sameValue(rel2.Y, arg) {
+					if sameValue(rel2.X, arg) || sameValue(rel2.Y, arg) || sameArith(rel2.X, arg) || sameArith(rel2.Y, arg) {
 						exact = true
 					}
 				}
@@ -1162,4 +1162,22 @@ func checkZeroRowsIsNotEmpty(p *Program, r *Report, rule string, entries []strin
 	if n == 0 {
 		r.Discharge(rule, "closure/no-return-on-zero-rows", "-", "no return of the closure is guarded by TreeRows(x) == 0", false)
 	}
+}
+
+// sameArith: a and b are the same value or the same arithmetic expression over the same values.
+func sameArith(a, b ssa.Value) bool {
+	if a == b {
+		return true
+	}
+	x, ok1 := a.(*ssa.BinOp)
+	y, ok2 := b.(*ssa.BinOp)
+	if ok1 && ok2 && x.Op == y.Op {
+		return sameArith(x.X, y.X) && sameArith(x.Y, y.Y)
+	}
+	cx, ok1 := a.(*ssa.Convert)
+	cy, ok2 := b.(*ssa.Convert)
+	if ok1 && ok2 && types.Identical(cx.Type(), cy.Type()) {
+		return sameArith(cx.X, cy.X)
+	}
+	return false
 }
